@@ -50,7 +50,7 @@ func (e *Env) smokeEncDecode() func(*plan.Op, *plan.Res) string {
 	}
 }
 
-// C02, C08: a reference-valid sentence is accepted.
+// C02: a reference-valid sentence is accepted.
 func (e *Env) smokeValidAccepted() func(*plan.Op, *plan.Res) string {
 	return func(op *plan.Op, r *plan.Res) string {
 		if !isChk(op.Fn) || !supportedLang(op.L) {
@@ -58,6 +58,37 @@ func (e *Env) smokeValidAccepted() func(*plan.Op, *plan.Res) string {
 		}
 		if st, _ := e.RefValidate(op.Str(), int(op.L)); st == ref.OK && !acceptedBy(op, r) {
 			return fmt.Sprintf("under concurrency a valid %s mnemonic is rejected (%s): %s", ref.Names[op.L], errText(r.Err), preview(op.Str()))
+		}
+		return ""
+	}
+}
+
+// C08: the words emitted are the list words of their indices, and validation knows every
+// list word. A valid sentence rejected for its CHECKSUM is ambiguous under concurrency (a
+// word mapped to a wrong index, or the checksum computed wrongly) and is left to C02/C12.
+func (e *Env) smokeListWords(ambiguous *counter) func(*plan.Op, *plan.Res) string {
+	return func(op *plan.Op, r *plan.Res) string {
+		if !supportedLang(op.L) {
+			return ""
+		}
+		lang := int(op.L)
+		switch {
+		case op.Fn == "enc" && validEntLen(len(op.Entropy())) && r.Err == nil:
+			toks := strings.Split(string(unhex(r.Out)), ref.Sep(lang))
+			idx := ref.Indices(op.Entropy())
+			for i := 0; i+1 < len(idx) && i < len(toks); i++ {
+				if toks[i] != e.Model.List[lang][idx[i]] {
+					return fmt.Sprintf("under concurrency the word emitted for %s index %d is %s, the canonical word is %s", ref.Names[lang], idx[i], preview(toks[i]), preview(e.Model.List[lang][idx[i]]))
+				}
+			}
+		case isChk(op.Fn):
+			if st, _ := e.RefValidate(op.Str(), lang); st != ref.OK || acceptedBy(op, r) {
+				return ""
+			}
+			if op.Fn != "val" && errClassOf(r.Err) == "other" {
+				return fmt.Sprintf("under concurrency a valid %s sentence is rejected with %q: validation does not know a list word", ref.Names[lang], errText(r.Err))
+			}
+			ambiguous.Inc(ref.Names[lang])
 		}
 		return ""
 	}
